@@ -80,6 +80,11 @@ def make_scenarios(rng, tier):
         inc = g.op("incr")
         scs.append(scenario(sid, 1, 2, [g.op("update"), inc, g.op(mid), dict(inc)], g))
         sid += 1
+    # the very text in service submitted AGAIN after removals took rules of it away: a full update installs what its text says, every time
+    for (mn, mx) in ((1, 2), (2, 3)):
+        t = {"op": "update", "rules": g.rules(["pa", "pb", "pc"])}
+        scs.append(scenario(sid, mn, mx, [t, {"op": "remove", "names": ["pb"]}, dict(t), {"op": "remove", "names": ["pa", "pc"]}, dict(t)], g))
+        sid += 1
     # texts that do not compile — syntax errors, duplicate names, characters no token starts with — through both update paths
     for k in ("update", "incr"):
         for t in ('rule "pz" "vz" begin x = 1 # end', 'rule "pz" begin return 1 end $', 'rule "pa" begin return 1'):
